@@ -501,10 +501,55 @@ func emitGenOps(g *G, nDbc, seqPerMsg, seqLen int, which string) {
 	}
 }
 
+// special DBCs of the class that exercise the generator's decision points
+func specialDbcs() []string {
+	hdr := "VERSION \"\"\nNS_ :\nBS_:\nBU_: NodeA NodeB\n"
+	attrs := "BA_DEF_ BO_ \"GenMsgSendType\" ENUM \"None\",\"Cyclic\",\"Event\";\nBA_DEF_ BO_ \"GenMsgCycleTime\" INT 0 100000;\nBA_DEF_ SG_ \"GenSigStartValue\" INT 0 0;\n"
+	var out []string
+	add := func(body string) { out = append(out, hdr+body) }
+	// 1-bit signals with factor / offset / range / enum
+	add("BO_ 1 MsgA: 8 NodeA\n SG_ SigA : 0|1@1+ (2,0) [0|0] \"\" NodeB\n SG_ SigB : 1|1@1+ (1,5) [0|0] \"\" NodeB\n SG_ SigC : 2|1@1+ (1,0) [0|1] \"\" NodeB\n" + attrs + "VAL_ 1 SigB 0 \"Off\" 1 \"On\" ;\n")
+	// 1-bit multiplexer
+	add("BO_ 2 MsgB: 8 NodeA\n SG_ SigM M : 0|1@1+ (1,0) [0|0] \"\" NodeB\n SG_ SigX m0 : 8|8@1+ (1,0) [0|0] \"\" NodeB\n SG_ SigY m1 : 8|16@1- (1,0) [0|0] \"\" NodeB\n" + attrs)
+	// width thresholds
+	for _, L := range []int{1, 2, 7, 8, 9, 15, 16, 17, 31, 32, 33, 63, 64} {
+		for _, sign := range []string{"+", "-"} {
+			add(fmt.Sprintf("BO_ 3 MsgC: 8 NodeA\n SG_ SigW : 0|%d@1%s (1,0) [0|0] \"\" NodeB\n", L, sign) + attrs)
+		}
+	}
+	// float32 with and without range / scaling, enum + offset, range equal to / narrower than the representable range
+	add("BO_ 4 MsgD: 8 NodeA\n SG_ SigF : 0|32@1+ (1,0) [0|0] \"\" NodeB\n SG_ SigG : 32|32@1+ (1,0) [-10|10] \"\" NodeB\n" + attrs + "SIG_VALTYPE_ 4 SigF : 1;\nSIG_VALTYPE_ 4 SigG : 1;\n")
+	add("BO_ 5 MsgE: 8 NodeA\n SG_ SigR : 0|8@1+ (1,0) [0|255] \"\" NodeB\n SG_ SigS : 8|8@1+ (1,0) [0|254] \"\" NodeB\n SG_ SigT : 16|8@1- (1,0) [-128|127] \"\" NodeB\n SG_ SigU : 24|8@1- (1,0) [-127|127] \"\" NodeB\n SG_ SigV : 32|4@1+ (1,3) [0|0] \"\" NodeB\n" + attrs + "VAL_ 5 SigV 1 \"One\" 2 \"Two Words\" ;\n")
+	// send types and node groups; a message without send type, no nodes
+	add("BO_ 6 MsgF: 8 NodeA\n SG_ SigA : 0|8@1+ (1,0) [0|0] \"\" NodeB\nBO_ 7 MsgG: 8 NodeB\n SG_ SigB : 0|8@1+ (1,0) [0|0] \"\" NodeA,NodeB\nBO_ 8 MsgH: 2 Vector__XXX\n SG_ SigC : 0|8@1+ (1,0) [0|0] \"\" Vector__XXX\n" + attrs +
+		"BA_ \"GenMsgSendType\" BO_ 6 \"Cyclic\";\nBA_ \"GenMsgCycleTime\" BO_ 6 100;\nBA_ \"GenMsgSendType\" BO_ 7 \"Event\";\n")
+	out = append(out, "VERSION \"\"\nNS_ :\nBS_:\nBU_:\nBO_ 9 MsgI: 0 Vector__XXX\n")
+	out = append(out, "VERSION \"\"\nNS_ :\nBS_:\nBU_: NodeA\n")
+	return out
+}
+
+func genC11(g *G) {
+	for _, d := range specialDbcs() {
+		g.Emit("gapi %s", HexS([]byte(d)))
+		g.Tag("special")
+	}
+	n := g.N(40, 600)
+	for i := 0; i < n; i++ {
+		force := -1
+		if i < len(widthClasses)*2 {
+			force = i % len(widthClasses)
+		}
+		d := genDbc43(g, force)
+		g.Emit("gapi %s", HexS(d.text))
+		g.Tag("random-class")
+	}
+}
+
 func genC03(g *G) { emitGenOps(g, g.N(24, 400), g.N(4, 12), 0, "C03") }
 func genC10(g *G) { emitGenOps(g, g.N(24, 400), g.N(10, 40), g.N(40, 400), "C10") }
 
 func init() {
 	RegGen("C03", genC03)
 	RegGen("C10", genC10)
+	RegGen("C11", genC11)
 }
